@@ -204,6 +204,10 @@ func parseLamportClock(transaction *transaction, headers jws.Headers, _ *jws.Mes
 		return transactionValidationError(missingHeaderErrFmt, lamportClockHeader)
 	} else if lcAsFloat64, ok := lcAsInterf.(float64); !ok {
 		return transactionValidationError(invalidHeaderErrFmt, lamportClockHeader)
+	} else if lcAsFloat64 < 0 || lcAsFloat64 > MaxLamportClock {
+		// converting a value outside the uint32 range wraps around or saturates depending on the platform:
+		// such a transaction would carry a different clock than the one it declares (and not the same one on every node)
+		return transactionValidationError(invalidHeaderErrFmt, lamportClockHeader)
 	} else {
 		transaction.lamportClock = uint32(lcAsFloat64)
 		return nil
